@@ -678,6 +678,9 @@ class JupiterMoons(object):
         # Checking for type
         if not isinstance(epoch, Epoch):
             raise TypeError("Invalid input types")
+        for value in (X, Y, Z, OMEGA, psi, i, lambda_0, beta_0, D):
+            if not isinstance(value, (int, float)):
+                raise TypeError("Invalid input types")
 
         # Time in centuries since 1900.0
         time_JC_1900 = (epoch.jde() - 2415020.50000) / \
